@@ -1470,6 +1470,13 @@ def oracle(spec: dict, rename: bool = True) -> list[dict]:
     serialize(ir, root)
     canon_root = py_canon(ir, root)
     before = snapshot(ir, sc["model"], skip_uses_of=outer)
+    seen_, ubd = set(), []          # own values used before their definition (only in unsorted graphs)
+    for k_, v_ in ev:
+        if k_ == "def":
+            seen_.add(id(v_))
+        elif k_ == "use" and id(v_) in owned and id(v_) not in seen_:
+            ubd.append(v_)
+    before_ubd = snapshot(ir, sc["model"], skip_uses_of=outer + ubd) if ubd else before
     ser_before = serialize(ir, sc["model"])
     ser_root = serialize(ir, root, normalize_view=(kind == 1))
     try:
@@ -1481,14 +1488,8 @@ def oracle(spec: dict, rename: bool = True) -> list[dict]:
         if now != before or serialize(ir, sc["model"]) != ser_before:
             # own values used before their definition are passed through like outer-scope values when the flag is
             # set (known finding): the abandoned clone's nodes stay registered as their users
-            seen_, ubd = set(), []
-            for k_, v_ in ev:
-                if k_ == "def":
-                    seen_.add(id(v_))
-                elif k_ == "use" and id(v_) in owned and id(v_) not in seen_:
-                    ubd.append(v_)
             if allow and ubd and serialize(ir, sc["model"]) == ser_before and \
-                    snapshot(ir, sc["model"], skip_uses_of=outer + ubd) == snapshot_minus_uses(before, ubd, ir, sc, outer):
+                    snapshot(ir, sc["model"], skip_uses_of=outer + ubd) == before_ubd:
                 bad("rejected-clone-left-users-on-own-values",
                     f"a rejected clone left its nodes as users of {ubd[0].name!r}, a value of the original used before its definition")
             else:
@@ -1575,22 +1576,6 @@ def oracle(spec: dict, rename: bool = True) -> list[dict]:
     elif serialize(ir, sc["model"]) != ser0:
         bad("edit-clone-changes-original", "editing the clone changed the serialized original")
     return fails
-
-
-def snapshot_minus_uses(before, ubd, ir, sc, outer):
-    """[before] without the use lists of the values in ubd (recomputed by matching value names)."""
-    names = {v.name for v in ubd}
-
-    def strip(x):
-        if isinstance(x, dict):
-            d = {k: strip(v) for k, v in x.items()}
-            if "uses" in d and d.get("name") in names and "flags" in d:
-                del d["uses"]
-            return d
-        if isinstance(x, (list, tuple)):
-            return type(x)(strip(v) for v in x)
-        return x
-    return strip(before)
 
 
 def first_diff(a, b, path="") -> str:
